@@ -21,6 +21,7 @@
 """SSH connection handlers"""
 
 import asyncio
+import errno
 import copy
 import functools
 import getpass
@@ -3494,6 +3495,11 @@ class SSHConnection(SSHPacketHandler, asyncio.Protocol):
         self.logger.info('Creating local UNIX forwarder from %s to %s',
                          listen_path, dest_path)
 
+        # A second listener would take the path away from the first one,
+        # which would then never be closed
+        if listen_path in self._local_listeners:
+            raise OSError(errno.EADDRINUSE, 'Already listening on this path')
+
         try:
             listener = await create_unix_forward_listener(self, self._loop,
                                                           tunnel_connection,
@@ -5633,6 +5639,9 @@ class SSHClientConnection(SSHConnection):
 
         self.logger.info('Creating local UNIX forwarder from %s to %s',
                          listen_path, (dest_host, dest_port))
+
+        if listen_path in self._local_listeners:
+            raise OSError(errno.EADDRINUSE, 'Already listening on this path')
 
         try:
             listener = await create_unix_forward_listener(self, self._loop,
